@@ -84,6 +84,7 @@ Lemma update_table_frame w delta offset g a g' :
   frame_in (mp4_moved offset delta (ma_off a) + 16) (mp4_moved offset delta (ma_off a) + ma_len a) g g'.
 Proof.
   intros Hao Hlen. unfold mp4_update_table. set (ao := mp4_moved offset delta (ma_off a)) in *.
+  destruct (ma_len a <? 16) eqn:E16; [discriminate|].
   destruct (mp4_read_full g (ao + 12) (ma_len a - 12)) as [data0|] eqn:Er; [|discriminate].
   assert (Hao12 : 0 <= ao + 12) by lia.
   destruct (read_full_inv g (ao + 12) (ma_len a - 12) data0 Hao12 Er) as (Hn & -> & Hfit & Hd).
@@ -113,6 +114,7 @@ Lemma update_table_spec w delta offset g a g' :
 Proof.
   intros Hw ao cnt Hao Hcnt Hlen Hfit. unfold mp4_update_table. fold ao.
   assert (Hwc : 0 <= Z.of_nat w * cnt) by nia.
+  destruct (ma_len a <? 16) eqn:E16; [lia|].
   rewrite read_full_ok by lia.
   rewrite ztake_rd by lia. rewrite zlen_rd_in by lia. cbn [Z.ltb Z.compare Pos.compare Pos.compare_cont].
   fold cnt. rewrite zdrop_rd by lia. replace (ao + 12 + 4) with (ao + 16) by lia.
@@ -146,6 +148,7 @@ Lemma update_tfhd_frame delta offset g a g' :
   frame_in (mp4_moved offset delta (ma_off a) + 16) (mp4_moved offset delta (ma_off a) + ma_len a) g g'.
 Proof.
   intros Hao Hlen. unfold mp4_update_tfhd. set (ao := mp4_moved offset delta (ma_off a)) in *.
+  destruct (ma_len a <? 12) eqn:E12; [discriminate|].
   destruct (mp4_read_full g (ao + 9) (ma_len a - 9)) as [data0|] eqn:Er; [|discriminate].
   assert (Hao9 : 0 <= ao + 9) by lia.
   destruct (read_full_inv g (ao + 9) (ma_len a - 9) data0 Hao9 Er) as (Hn & -> & Hfit & Hd).
@@ -172,6 +175,7 @@ Lemma update_tfhd_spec delta offset g a g' :
      0 <= o' < MP4_U64 /\ g' = patch g (ao + 16) (be_encode 8 o') /\ tfhd_base g' ao = o').
 Proof.
   intros ao Hao Hlen Hflag Hfit. unfold mp4_update_tfhd. fold ao.
+  destruct (ma_len a <? 12) eqn:E12; [lia|].
   rewrite read_full_ok by lia.
   rewrite ztake_rd by lia. rewrite zlen_rd_in by lia. cbn [Z.ltb Z.compare Pos.compare Pos.compare_cont].
   change (Z.odd (be_decode (mp4_rd g (ao + 9) 3))) with (tfhd_flag g ao).
